@@ -291,12 +291,34 @@ Proof.
     + apply (keepsf_fold (fun s o => commit_one o s)). intros x. apply keepsf_commit_one.
     + intros st. split; reflexivity.
 Qed.
+Lemma keeps_fail_at : forall c r, c <> E_ILLEGAL -> keeps (fail_at c r).
+Proof.
+  intros c r Hc st x st' H. unfold fail_at in H.
+  destruct (head_nested st && existsb (needs_load st) r); inversion H; subst; repeat split; auto; congruence.
+Qed.
+Lemma keeps_exec_f : forall c l k, c <> E_ILLEGAL -> keeps (exec_f k c l).
+Proof.
+  intros c l. induction l as [|s r IH]; intros k Hc st x st' H.
+  - inversion H; subst. repeat split; auto; discriminate.
+  - cbn [exec_f] in H. destruct (do_stmt s st) as [[|c'|] s1] eqn:E1;
+      destruct (keeps_do_stmt s _ _ _ E1) as [A1 [A2 A3]].
+    + assert (X : forall k', exec_f k' c r s1 = (x, st') -> stk st' = stk st /\ nfid st' = nfid st /\ x <> Err E_ILLEGAL).
+      { intros k' H'. destruct (IH k' Hc _ _ _ H') as [B1 [B2 B3]]. repeat split; congruence. }
+      destruct (emits s st); [|apply (X k H)].
+      destruct k as [[|k']|]; [|apply (X _ H)|apply (X _ H)].
+      destruct (keeps_fail_at c r Hc _ _ _ H) as [B1 [B2 B3]]. repeat split; congruence.
+    + destruct (emits s st && Z.eqb c' E_STALE && match k with Some O => true | _ => false end).
+      * destruct (keeps_fail_at c r Hc _ _ _ H) as [B1 [B2 B3]]. repeat split; congruence.
+      * assert (Hc' : c' <> E_ILLEGAL) by congruence.
+        destruct (keeps_fail_at c' r Hc' _ _ _ H) as [B1 [B2 B3]]. repeat split; congruence.
+    + inversion H; subst. repeat split; auto; discriminate.
+Qed.
 Lemma keeps_flush_exec : forall n d e, keeps (flush_exec n d e).
 Proof.
   intros n d e. unfold flush_exec.
   apply keeps_bind; [apply keeps_provision|].
   apply keeps_bind; [apply keeps_foldM; apply keeps_organize_pending|].
-  apply keeps_bind; [apply keeps_withst; intros s; apply keeps_foldM; apply keeps_do_stmt|].
+  apply keeps_bind; [apply keeps_withst; intros s; apply keeps_exec_f; discriminate|].
   apply keeps_finalize.
 Qed.
 Lemma keeps_head_db_rollback : keeps head_db_rollback.
